@@ -15,8 +15,10 @@
     * after a closing encapsulator every byte up to the next separator is silently dropped;
     * CR and LF outside an encapsulated field are dropped, but still clear `first`;
     * the `first` flag is NOT restored by `deserialize_next` (it restarts at `true`);
-    * `deserialize_next` with an empty field vector and a non-empty line executes `out.back()` and
-      `out.pop_back()` on an empty `std::vector` — undefined behaviour, outcome `hazardEmptyBack`.
+    * `deserialize_next` with an EMPTY field vector has nothing to continue: `encap = next && !out.empty()`, the
+      line starts a record exactly as in `deserialize` (but `m_error` is not reset). `out.back()` / `out.pop_back()`
+      are only reached with a non-empty vector; the outcome `hazardEmptyBack` stays in the vocabulary and
+      `Proofs/C18.lean` (`csv_args_total`) proves that no call produces it.
 
   The inner loop `while (pos != line.end() && *pos != m_separator) ++pos;` is represented by the
   `skipping` flag of the scanner state (control is inside that inner loop), so that `scan` is a
@@ -147,10 +149,11 @@ def deserializeChunk (cfg : Cfg) (ps : PState) (next : Bool) (out : Row) (line :
     -- "push blank value and avoid fault"; "end of stream"
     .done next (if next ∧ out = [] then [[]] else out) ps
   | _ :: _ =>
-    if next then
+    -- `bool encap = next && !out.empty();`
+    if next ∧ out ≠ [] then
       -- `value.assign(out.back()); out.pop_back();`
       match out.getLast? with
-      | none => .hazardEmptyBack
+      | none => .hazardEmptyBack        -- (unreachable: `out` is not empty)
       | some v => finish ps (scan cfg line { out := out.dropLast, value := v, first := true, encap := true })
     else
       finish ps (scan cfg line { out := out, value := [], first := true, encap := false })
@@ -166,8 +169,7 @@ def deserializeNext (cfg : Cfg) (ps : PState) (out : Row) (line : List UInt8) : 
 /-! ### the client's view of a call
 
 `deserialize` / `deserialize_next` return the "needs more lines" flag and leave the fields in `out`;
-`in_error()` tells whether the call failed. A failed call, or one that ran into the hazard, has no
-result. (`deserialize_next` does not reset `m_error`; the client view below starts from a parser whose
+`in_error()` tells whether the call failed. A failed call has no result (the hazard outcome is never produced). (`deserialize_next` does not reset `m_error`; the client view below starts from a parser whose
 flag is clear, which is the state `deserialize` leaves behind on success.) -/
 
 def Outcome.toCall : Outcome → Option (Bool × Row)
